@@ -28,7 +28,7 @@ type config struct {
 	Prewrite int    `json:"sequential_writes_before"`
 	Writers  int    `json:"writers"`
 	PerW     int    `json:"packets_per_writer"`
-	Bound    int    `json:"preemption_bound"`
+	Bound    int    `json:"deviation_bound"`
 }
 
 func (c config) name() string {
